@@ -16,6 +16,7 @@ package gomatrixserverlib
 
 import (
 	"context"
+	"encoding/json"
 	"fmt"
 	"time"
 
@@ -145,6 +146,13 @@ func HandleInviteV3(ctx context.Context, input HandleInviteV3Input) (PDU, error)
 	// Check that the room ID is correct.
 	if input.InviteProtoEvent.RoomID != input.RoomID.String() {
 		return nil, spec.BadJSON("The room ID in the request path must match the room ID in the invite event JSON")
+	}
+
+	// Check that the event is an invite: it is completed and signed below.
+	var content MemberContent
+	if input.InviteProtoEvent.Type != spec.MRoomMember ||
+		json.Unmarshal(input.InviteProtoEvent.Content, &content) != nil || content.Membership != spec.Invite {
+		return nil, spec.BadJSON("The event JSON must be an m.room.member invite event")
 	}
 
 	// NOTE: If we already have a senderID for this user in this room,
